@@ -8,6 +8,8 @@ import (
 	"strings"
 	"time"
 
+	"github.com/xinchentechnote/fin-proto-go/codec"
+
 	"verif/internal/bind"
 	"verif/internal/gen"
 	"verif/internal/schema"
@@ -182,14 +184,51 @@ func c17Child(e *Env, ca childArgs) {
 	}
 }
 
+// c17RegistryChild encodes every checksummed frame several times in a row while its checksum service is
+// unregistered (codec.Remove / codec.Clear are public API and the generated encoders explicitly tolerate
+// an absent service): still bytes or an error, never a panic.
+func c17RegistryChild(e *Env) {
+	r := e.R
+	for round, how := range []string{"Remove", "Clear"} {
+		for _, t := range e.S.Order {
+			fi := frameOf(t)
+			if fi == nil || fi.sumField == "" {
+				continue
+			}
+			if how == "Remove" {
+				codec.Remove(fi.alg)
+			} else {
+				codec.Clear()
+			}
+			g := &gen.Gen{S: e.S, C: e.C, R: gen.NewRng(e.Seed, "C17-registry", t.QName, round), O: &gen.Opts{}}
+			for k := 0; k < 4; k++ {
+				v := g.Value(t)
+				err, p := LibEncode(v, new(bytes.Buffer))
+				r.Evals(1)
+				r.DistinctAdd(1)
+				if p != nil {
+					r.Violate("C17/encode-panic-with-service-unregistered/"+t.QName, "C17/encode-panic-with-service-unregistered/"+t.QName, map[string]any{"type": t.QName, "registry_state": how + "(" + fi.alg + ") before the encodes", "encode_number": k + 1, "panic": p.Value, "stack": p.Stack})
+					break
+				}
+				_ = err
+			}
+		}
+	}
+	r.Sample(map[string]any{"scenario": "checksum service removed / registry cleared, then each checksummed frame encoded 4 times in a row", "verdict": "returned bytes or an error every time"})
+}
+
 func c17(e *Env) {
+	if len(e.Args) > 0 && e.Args[0] == "registry-child" {
+		c17RegistryChild(e)
+		return
+	}
 	ca := parseChildArgs(e.Args)
 	if ca.isChild {
 		c17Child(e, ca)
 		return
 	}
 	r := e.R
-	r.Rule("every type × {zero value, constructor result, arbitrary values (numbers of any bit pattern, text of any length incl. over-long and all-pad, lists of 0..17 elements, nil nested parts, nil/mismatched bodies; thorough: 70 000-element lists), every registered key with a nil body/extension, unregistered keys with and without a body, each nested pointer part nil in turn} × destination buffer history H1..H7 (fresh, random content, earlier frames filling most of the capacity, partly consumed, drained, garbage in spare capacity, header-sized spare capacity); values with nil list elements or typed-nil bodies are excluded, as the property says. distinct_nontrivial = distinct structural hashes of the values encoded")
+	r.Rule("every type × {zero value, constructor result, arbitrary values (numbers of any bit pattern, text of any length incl. over-long and all-pad, lists of 0..17 elements, nil nested parts, nil/mismatched bodies; thorough: 70 000-element lists), every registered key with a nil body/extension, unregistered keys with and without a body, each nested pointer part nil in turn} × destination buffer history H1..H7 (fresh, random content, earlier frames filling most of the capacity, partly consumed, drained, garbage in spare capacity, header-sized spare capacity); plus every checksummed frame encoded four times in a row while its checksum service is unregistered (Remove / Clear); values with nil list elements or typed-nil bodies are excluded, as the property says. distinct_nontrivial = distinct structural hashes of the values encoded")
 	r.Explain("Oracle: Encode returns normally — nil error with bytes appended, or a non-nil error; a recovered panic or the death of the (child) process is a violation, with the pre-logged in-flight value as witness.")
 	r.Assume("values not generated are not covered")
 	outs := runChildren(e, e.Workers, 300*time.Second)
@@ -215,6 +254,21 @@ func c17(e *Env) {
 				d["type"] = typ
 				r.Violate("C17/process-died/"+typ, "C17/process-died/"+typ, d)
 			}
+		}
+	}
+	// one more child: frames encoded while their checksum service is unregistered
+	if e.Only == "" {
+		dir := monRoot() + "/.work/C17-children"
+		died, timedOut, sum, relayed := runOneChild([]string{"C17", "--tier", e.Tier, "--seed", fmt.Sprint(e.Seed), "registry-child"}, dir+"/registry.log", dir+"/registry.out", 120*time.Second, nil)
+		r.Relay(relayed)
+		r.Evals(sum.Evaluations)
+		r.DistinctAdd(sum.Distinct)
+		r.AddViolations(sum.Violations)
+		for _, sm := range sum.Samples {
+			r.Sample(sm)
+		}
+		if died || timedOut {
+			r.Inconclusive("registry-state child did not complete: " + tailFile(dir+"/registry.out", 400))
 		}
 	}
 	r.Sample(map[string]any{"kinds": []string{"zero-value", "constructor-result", "arbitrary", "nil-body/registered-key", "nil-body/unregistered-key", "body/unregistered-key", "nil-nested-part:<field>", "long-lists:<n>"}})
